@@ -351,6 +351,9 @@ class Sim:
                 o.to_delete_label = p[2]
             elif p[1] == "A":
                 o.to_add_atoms = self.mc.context.exchange_atoms.copy()
+            elif p[1] == "B":
+                # a species of another size than the template (two copies of it): still ONE particle
+                o.to_add_atoms = self.mc.context.exchange_atoms.copy() + self.mc.context.exchange_atoms.copy()
         self.current = tr["name"]
         self.criteria[tr["name"]].verdict = bool(tr["verdict"])
         for _ in self.mc.step():
@@ -454,7 +457,7 @@ def model_line(case):
     ents = [f"{e['name']}={e['oid']}={tree_str(e['tree'])}" for e in case["table"]]
     trials = []
     for tr in case["trials"]:
-        pres = "+".join(f"{p[0]}/{p[1]}/{p[2]}" if p[1] != "A" else f"{p[0]}/A" for p in tr.get("presel", [])) or "-"
+        pres = "+".join(f"{p[0]}/{p[1]}/{p[2]}" if p[1] not in ("A", "B") else f"{p[0]}/{p[1]}" for p in tr.get("presel", [])) or "-"
         ops = s_ints(x for v in tr["ops"] for x in v)
         trials.append(",".join([tr["name"], str(int(tr["verdict"])), s_ints(tr["draws"]), ops,
                                 s_ints(int(c) for c in tr["checks"]), pres]))
@@ -613,6 +616,15 @@ def gen_case(rng, ens, tier, max_trials=None):
         else:
             table.append({"name": names[j], "oid": oid, "tree": tree})
             oid += 1
+    if ens == "grand":
+        xs = [i for i in range(nobj) if objs[i]["kind"] == "exch"]
+        if len(xs) >= 2 and rng.random() < 0.35:
+            # a SWAP: a plain composite whose first member deletes a pre-selected particle and whose second member
+            # inserts a pre-selected species (net particle change 0 or ±0); unlike two un-directed exchange moves in a
+            # plain composite (recorded finding) this works on the pinned tree and must keep working
+            x0, x1 = rng.sample(xs, 2)
+            table.append({"name": "swap", "oid": oid, "tree": ["P", [x0, x1]], "swap": True})
+            oid += 1
     case["table"] = table
     nt = max_trials or (rng.randint(3, 10) if tier == "quick" else rng.randint(5, 25))
     trials = []
@@ -643,12 +655,16 @@ def gen_case(rng, ens, tier, max_trials=None):
                 if objs[r]["kind"] == "disp":
                     tr["presel"].append([r, "D", lab])
                 else:
-                    tr["presel"].append([r, "A"] if rng.random() < 0.5 else [r, "X", lab])
+                    tr["presel"].append(rng.choice([[r, "A"], [r, "B"], [r, "X", lab], [r, "X", lab]]))
         if rng.random() < 0.1 and e["tree"][0] == "D":
             # a target pre-selected on a member of a composite displacement move (the composite draws its own)
             r = rng.choice(tree_refs(e["tree"]))
             if objs[r]["labels"]:
                 tr["presel"].append([r, "D", rng.choice(objs[r]["labels"])])
+        if e.get("swap"):
+            x0, x1 = e["tree"][1]
+            lab = rng.choice(objs[x0]["labels"] + [99]) if objs[x0]["labels"] else 0
+            tr["presel"] = [[x0, "X", lab], [x1, rng.choice(["A", "A", "B"])]]
         trials.append(tr)
     case["trials"] = trials
     return case
